@@ -542,6 +542,16 @@ fn sparse_eval<F: PrimeField>(rep: &mut Report, rng: &mut Rng, args: &Args, fnam
                 rep.check(nvv == nv && deg == nv, || "mle/sparse/num_vars/value".into(), det);
                 rep.check(ix == t, || "mle/sparse/index/value".into(), det);
             }
+            // an entry whose index is not a vertex of the hypercube does not belong to any table of nv variables:
+            // documented to be refused ("index out of range"); accepting it gives an object whose sparse and dense
+            // forms disagree
+            for bad_index in [n, n + 1, 2 * n + 1] {
+                rep.class("sparse from_evaluations: index >= 2^num_vars (must be refused)");
+                rep.eval(mix(base, 900 + bad_index as u64), true);
+                let one = F::one();
+                let accepted = guard(|| SparseMle::from_evaluations(nv, &[(0usize, one), (bad_index, one)])).is_ok();
+                rep.check(!accepted, || "mle/sparse/from_evaluations/accepts-index-out-of-range".into(), || json!({"field": fname, "num_vars": nv, "index": bad_index}));
+            }
             let dense = DenseMle { evaluations: t.clone(), num_vars: nv };
             let mut pts: Vec<(Vec<F>, bool)> = vec![];
             if nv <= 6 {
